@@ -505,12 +505,12 @@ Proof. intros u. reflexivity. Qed.
 Example kit_steps_are_steps : forall x n p pi,
   In (p, pi) (proc_nodes (fst (build x n)) []) -> pi_in_steps pi = true -> pi_step pi = true.
 Proof.
-  intros x n p pi. unfold build. destruct (is_inert x), (has_drv x), (has_flow x); cbn;
+  intros x n p pi. unfold build. destruct (is_inert x), (no_cnt x), (has_drv x), (has_flow x); cbn;
   intros H; repeat (destruct H as [H|H]; [inversion H; subst; cbn; auto|]); contradiction.
 Qed.
 Example kit_build_cwf : forall x n, cwf (fst (build x n)).
 Proof.
-  intros x n. unfold build. destruct (is_inert x), (has_drv x), (has_flow x); cbn;
+  intros x n. unfold build. destruct (is_inert x), (no_cnt x), (has_drv x), (has_flow x); cbn;
   repeat (constructor; cbn; try (intros H; repeat destruct H as [H|H]; try discriminate; try contradiction)).
 Qed.
 
